@@ -3,6 +3,7 @@ import Driver.Config
 import Driver.Tx
 import Driver.Kv
 import Driver.Db
+import Driver.Writer
 open Driver
 
 structure DState where
@@ -11,6 +12,7 @@ structure DState where
   tx : TxSession := {}
   kv : Fjall.Mvcc.Kv := {}
   db : Fjall.Db.DbL := {}
+  wr : WrSession := {}
 
 def step (s : DState) (line : String) : DState × String :=
   let ws := words line
@@ -28,7 +30,10 @@ def step (s : DState) (line : String) : DState × String :=
         | none =>
           match dbCmd s.db ws with
           | some (d, out) => ({ s with db := d }, out)
-          | none => (s, "bad-op")
+          | none =>
+            match wrCmd s.wr s.comp ws with
+            | some (w, out) => ({ s with wr := w }, out)
+            | none => (s, "bad-op")
 
 partial def loop (h : IO.FS.Stream) (out : IO.FS.Stream) (s : DState) : IO Unit := do
   let line ← h.getLine
